@@ -455,10 +455,26 @@ def r6_pass_through(ctx) -> None:
     else:
         r.violation("C10.R6", h.qual, "template[method].format(...)", "correlation query template call not found", h.loc)
     gb = prog.func(TQ + ".convert_correlation_aggregation_groupby_from_template")
-    if "for field in group_by" in unparse(gb.node) and "field=self.escape_and_quote_field(field)" in unparse(gb.node):
-        r.ok("C10.R6", gb.qual, "every group-by field, in order, escaped", gb.loc)
+    # interpreted (sa.tabulate, Proxy) with marker templates: every field, in order, escaped; the no-field form without a list
+    from ..tabulate import Proxy as _Pb, call_method as _cmb, Raised as _Rb
+    IKb = {"max_steps": 4000, "behaviours": (NotImplementedError, KeyError, TypeError)}
+    tmpl = {"groupby_expression": {"m": "BY({fields})", "other": "XX{fields}"}, "groupby_field_expression": {"m": "[{field}]", "other": "YY{field}"},
+            "groupby_field_expression_joiner": {"m": ",", "other": ";"}, "groupby_expression_nofield": {"m": "NOFIELD", "other": "ZZ"}}
+    bad_b = []
+    for cfg, gby, want in ((tmpl, ["a", "b c", "a"], "BY([<a>],[<b c>],[<a>])"), (tmpl, ["x"], "BY([<x>])"), (tmpl, [], "BY()"), (tmpl, None, "NOFIELD"),
+                           (dict(tmpl, groupby_expression_nofield=None), None, ""), (dict(tmpl, groupby_field_expression=None), ["a"], "NotImplementedError"),
+                           (dict(tmpl, groupby_expression=None), ["a"], "NotImplementedError"), (dict(tmpl, groupby_field_expression_joiner=None), ["a"], "NotImplementedError")):
+        me_b = _Pb(prog, TQ, {}, dict(cfg, escape_and_quote_field=lambda f_: f"<{f_}>"), interp_kwargs=IKb)
+        try:
+            got_b = _cmb(prog, TQ, gb.name, me_b, {}, gby, "m", interp_kwargs=IKb)
+        except _Rb as ex:
+            got_b = "NotImplementedError" if "NotImplementedError" in str(ex) else f"raises {ex}"
+        if got_b != want:
+            bad_b.append(f"group-by {gby!r} → {got_b!r} instead of {want!r}")
+    if not bad_b:
+        r.ok("C10.R6", gb.qual, "every group-by field, in order, escaped; the no-field form only without a list (interpreted on 8 configurations)", gb.loc)
     else:
-        r.violation("C10.R6", gb.qual, "group-by rendering", "group-by fields are not all rendered in order", gb.loc)
+        r.violation("C10.R6", gb.qual, "group-by rendering", f"group-by fields are not all rendered in order: {bad_b[0]}", gb.loc)
     r.floor("C10.R6", 14)
 
 
